@@ -2,7 +2,7 @@
 from hqrules.core import FailClosed, callee_of, callee_decl, op_local, op_place, place_fields, norm
 from hqrules.templates import (effect_blocks, must_pass, state_writes, variants_at, call_sites, construct_sites, Effect,
                                check_arm_effect, pick_scrutinee, loop_headers_containing, owner_fn, scrutinees,
-                               field_read_sites, local_field_sources, _direct_effect_blocks)
+                               field_read_sites, local_field_sources, _direct_effect_blocks, bool_uses)
 from .common import *
 from . import reactor_table, shared_rules
 
@@ -10,7 +10,7 @@ EXPLANATION = ('Structural necessary conditions of C08: on_cancel_tasks releases
                'worker and forgets the task and its recursive consumers; a queue-resident state must be dequeued when left (R08.2); '
                'cancel_job is core-first, await-free and idempotent; the worker CancelTasks handler covers every container that can hold a task.')
 NOT_DECIDED = ['that the worker actually stops the process (OS behaviour)', 'global ordering of late messages (R01.2 covers the unknown-id path)']
-RELATED = {'C01': ['R01.2'], 'C05': ['R05.5']}
+RELATED = {'C01': ['R01.2', 'R01.6~handle_task_with_signals'], 'C05': ['R05.5']}
 ASSUMPTIONS = ['per-connection FIFO']
 
 OPTION = 'core::option::Option'
@@ -190,3 +190,20 @@ def run(ctx):
     # the rpc handler dispatches CancelTasks to cancel_task
     callers = set(o for o, b, bi in call_sites(prog, ct.path) if not is_test_util(o))
     ctx.ob('R08.4', 'cancel_task|called from worker message loop', any('worker::rpc' in c for c in callers), f'cancel_task is driven by the worker message handler (callers {sorted(callers)})', None)
+
+    # ---- R08.7 a removed (canceled) task leaves the ready queue wherever it sits
+    ctx.rule('R08.7', 'TaskQueue::remove: the task is taken out of the prefill set or out of the priority queue: the early return of the prefill branch is taken only when the set really contained the task (otherwise a canceled ready task of the prefill priority stays queued and is scheduled after it was forgotten)')
+    tqr = prog.body(T + 'scheduler::taskqueue::TaskQueue::remove')
+    SETREM = lambda c: c.endswith(('HashSet::remove', 'Set::remove', 'BTreeSet::remove'))
+    pr_ = [bi for bi in tqr.call_blocks(SETREM) if 'prefill' in local_field_sources(tqr, op_local(tqr.term[bi]['args'][0]), through_mutation=False)]
+    qe_ = [bi for bi, t, c in tqr.calls() if bi in tqr.reachable() and (c or '').endswith(('BTreeMap::entry', 'BTreeMap::get_mut', 'BTreeMap::remove')) and 'queue' in local_field_sources(tqr, op_local(t['args'][0]), through_mutation=False)]
+    ctx.require(pr_ and qe_, 'R08.7: prefill-set remove / queue lookup in TaskQueue::remove')
+    t_edges = set()
+    for bi in pr_:
+        dl = tqr.term[bi]['d'][0]
+        for sb, ts, fs in bool_uses(tqr, dl):
+            if ts != fs:
+                t_edges.add((sb, ts))
+    skipped = [r for r in tqr.returns() if r in tqr.reach_from([0], avoid=qe_, avoid_edges=t_edges)]
+    ctx.ob('R08.7', 'TaskQueue::remove|queue part skipped only after a successful prefill-set removal', bool(t_edges) and not skipped,
+           'every path that returns without touching the priority queue passes the true edge of prefill_set.remove(task)', tqr.loc(pr_[0]))
